@@ -293,6 +293,22 @@ def run_case(base, case, acc, truncate=None):
     changed = True  # the block ran at least one op
     if n_exits:
         acc.nontrivial(depth_target, tuple(sorted(set(kinds_inside))), outcome.split(":")[0])
+    judge_exits(acc, tap, H, results, kinds_inside, trace, ident, outcome, rec, depth_target, (lambda k: _probe_prefix(base, case, k)) if truncate is None else None)
+    model._cv_armed = False
+    if case < 2:
+        acc.sample({"start": kind, "depth": depth_target, "exit_kind": outcome, "trace": trace[:8]})
+
+
+def _probe_prefix(base, case, k):
+    from cv.acc import Acc
+
+    probe = Acc()
+    run_case(base, case, probe, truncate=k)
+    return probe
+
+
+def judge_exits(acc, tap, H, results, kinds_inside, trace, ident, outcome, rec, depth_target, minimise):
+    """Classify what the ContextTap saw at every exit of one block."""
     for depth, diffs, exit_exc in results:
         if exit_exc is not None and not isinstance(exit_exc, Boom):
             tagk = _known_mechanism(H, exit_exc)
@@ -328,15 +344,12 @@ def run_case(base, case, acc, truncate=None):
         if diffs:
             classes = sorted({_diff_class(d) for d in diffs})
             opskey = _ops_key(kinds_inside)
-            if opskey == "mixed" and truncate is None:
+            if opskey == "mixed" and minimise is not None:
                 # find the shortest prefix of the block that already fails: its last
                 # operation is the trigger
-                from cv.acc import Acc
-
                 for k in range(1, len(kinds_inside) + 1):
-                    probe = Acc()
                     try:
-                        run_case(base, case, probe, truncate=k)
+                        probe = minimise(k)
                     except Exception:
                         break
                     tap.acc = acc
@@ -351,9 +364,6 @@ def run_case(base, case, acc, truncate=None):
                 dict(ident, trace=trace[-16:], diffs=diffs[:10], exit_depth=depth, outcome=outcome, start_recipe=rec if len(str(rec)) < 5000 else "large"),
             )
             break
-    model._cv_armed = False
-    if case < 2:
-        acc.sample({"start": kind, "depth": depth_target, "exit_kind": outcome, "trace": trace[:8]})
 
 
 def _only_outside_refs_changed(diffs):
@@ -407,7 +417,82 @@ def _known_mechanism(H, exc):
     return None
 
 
+def _probe_model():
+    import cobra
+
+    m = cobra.Model("probe")
+    a, b, x = (cobra.Metabolite(i, compartment=i[-1]) for i in ("a_c", "b_c", "x_e"))
+    ex = cobra.Reaction("EX_x_e", lower_bound=-10, upper_bound=10)
+    ex.add_metabolites({x: -1})
+    t = cobra.Reaction("T", lower_bound=-10, upper_bound=10)
+    t.add_metabolites({x: -1, a: 1})
+    t.gene_reaction_rule = "g1 or g2"
+    r = cobra.Reaction("R", lower_bound=0, upper_bound=10)
+    r.add_metabolites({a: -1, b: 1})
+    r.gene_reaction_rule = "g1"
+    bio = cobra.Reaction("BIO", lower_bound=0, upper_bound=10)
+    bio.add_metabolites({b: -1})
+    m.add_reactions([ex, t, r, bio])
+    m.objective = "BIO"
+    return m
+
+
+def run_probe(pr, acc):
+    """Scripted blocks, one per recorded known finding (probes/C03/*.json name them)."""
+    import pickle
+
+    import cobra
+    from cobra.manipulation import rename_genes
+
+    tap = tap_for(acc)
+    name = pr["name"]
+    model = _probe_model()
+    kinds = []
+    if name == "glpk_exact-copy":
+        model.solver = "glpk_exact"
+        model = pickle.loads(pickle.dumps(model))
+    elif name == "outside-reference-dropped":
+        free = cobra.Reaction("free")
+        newm = cobra.Metabolite("n_c", compartment="c")
+        free.add_metabolites({newm: 1})
+        r = model.reactions.R
+        r += free  # n_c joins the model and keeps listing the free reaction
+    elif name == "outside-reference-added":
+        r = model.reactions.R
+        model.remove_reactions([r])
+        rename_genes(model, {"g1": "gn1"})
+    H = ops.Hist(model, gen.rng_for("C03probe", name))
+    model._cv_armed = True
+    tap.results.clear()
+    trace = [{"op": "ctx.enter", "args": {"depth": 1}, "raised": None}]
+    outcome = "normal"
+    try:
+        with model:
+            if name == "glpk_exact-copy":
+                model.remove_reactions([model.reactions.R])
+                kinds.append("model.remove_reactions")
+            elif name == "outside-reference-dropped":
+                rename_genes(model, {"g2": "gn2"})
+                kinds.append("manipulation.rename_genes")
+            else:
+                model.add_reactions([r])
+                kinds.append("model.add_reactions")
+            trace.append({"op": kinds[-1], "args": None, "raised": None})
+    except Exception as e:
+        outcome = "op-raised:" + type(e).__name__
+    results = list(tap.results)
+    for _ in results:
+        acc.ev()
+    acc.count("probes_run")
+    judge_exits(acc, tap, H, results, kinds, trace, {"probe": name}, outcome, None, 1, None)
+    model._cv_armed = False
+
+
 def run_shard(desc, acc):
+    if desc.get("kind") == "probes":
+        for pr in desc["probes"]:
+            run_probe(pr, acc)
+        return
     first = desc.get("first", 0)
     for case in range(first, first + desc["cases"]):
         run_case(desc["base"], case, acc)
